@@ -269,7 +269,7 @@ EXTRA = {
     'C14': 'Additionally built-in alignment tables with log-likelihoods 800..2000 apart and nearly tied tables with a negative criterion, a source-activity mask together with the inline aligner, and masks in other memory layouts. Tables with -inf entries, aligner(mask, ref) against calculate_mapping + apply_mapping, mappings stored as int8..uint64. Tables with one decided class and two classes within a nat. Tables of 4 101 frames whose last frames decide.',
     'C15': 'Additionally score-matrix stacks with 1..3 leading axes, magnitudes 1e8 (float32) / 1e17 (float64), and one aligner object reused for a reference buffer refilled in place. Antipodal signed references, returned mappings overwritten by the caller between calls. Classes that differ only in the tail of 4 097..9 000 frames; classes 46 dB below the dominant one.',
     'C16': 'Additionally int8 / int32 / uint8 masks and masks scaled by 2**60, 2**-60 (double) and 2**30 (single): the mapping must be bit-identical.',
-    'C17': 'Additionally sensor noise 80 and 120 dB below the sources; the scene is built on the reference DHTV plan and the implementation plan is compared with it. use_eig=True through the pipeline, fit_predict 40 dB lower, a fresh C-contiguous posterior array. channel_selection_vector / explicit ref_channel in the pipeline.',
+    'C17': "Additionally sensor noise 80 and 120 dB below the sources; the scene is built on the reference DHTV plan and the implementation plan is compared with it. use_eig=True through the pipeline, fit_predict 40 dB lower, a fresh C-contiguous posterior array. channel_selection_vector / explicit ref_channel in the pipeline. Scenes are vetted (steering vectors of different sources at least 0.25 rad apart in every bin); the un-vetted scene of seed 11 is kept as a fixed case and is a known finding (cWMM + 'mvdr_souden+ban': 19.6 dB).",
     'C18': 'Additionally transposed views as inputs and tuples of quantiles with non-default axes. complex64 inputs and exact Gaussian-integer powers.',
     'C19': 'Additionally inputs in other memory layouts. Sources 120 dB apart, noise longer than the target, singleton leading axes, set_snr requests 1e-3..1e-7 dB apart on one buffer, earlier dict results re-read after later calls. Outputs whose captured powers are 4e-6 apart relatively. Signals of 1 500 and 2 501 samples in the SNR round trip.',
     'C20': 'Additionally call_sequences: for every entry point X and every other entry point Y (all ordered pairs in the thorough tier) the result of X after Y equals the result of X in a pristine process. One identical call repeated 16 times under heap traffic with a bit-exactness expectation; read-only arguments for every entry. Noise PSDs of condition 1e9..1e11 as purity entries; a second utterance handed over through the same refilled buffer in the trainer histories. Starts that are not normalised over the classes and masks with unit-norm rows as purity entries.',
